@@ -106,15 +106,19 @@ Fixpoint serialized (incall : bool) (st : list istep) : bool :=
 
 (* ---- catch-up exactly when due, and no skipped version, on the implementation's trace ---- *)
 
-(* the steps at which something was put into cbch, in order (with the API call that did it),
-   and the steps at which the callback goroutine took something out *)
-Fixpoint enq_steps (prev : obs) (st : list istep) : list (N * option N) :=
+(* the steps at which something was put into cbch, in order: the API call that did it, or - for a
+   new-config event of the monitor - the serial it announces (the store directly precedes the submit,
+   so it is the published serial at that step); and the steps at which the callback goroutine took
+   something out *)
+Fixpoint enq_steps (prev : obs) (st : list istep) : list (N * option N * option N) :=
   match st with
   | [] => []
   | x :: r =>
       (match i_lab x with
-       | LApiAct t 2 => [(i_idx x, Some t)]
-       | LMonAct false => if (o_mon prev =? 1) || (o_mon prev =? 5) || (o_mon prev =? 6) then [(i_idx x, None)] else []
+       | LApiAct t 2 => [(i_idx x, Some t, None)]
+       | LMonAct false =>
+           if o_mon prev =? 5 then [(i_idx x, None, Some (fst (o_val (i_obs x))))]
+           else if (o_mon prev =? 1) || (o_mon prev =? 6) then [(i_idx x, None, None)] else []
        | _ => []
        end) ++ enq_steps (i_obs x) r
   end.
@@ -129,31 +133,32 @@ Fixpoint take_steps (prev : obs) (st : list istep) : list N :=
 Fixpoint index_of {A} (f : A -> bool) (l : list A) (i : nat) : option nat :=
   match l with [] => None | a :: r => if f a then Some i else index_of f r (S i) end.
 
-(* the step at which the registration of h was taken by the callback goroutine (cbch is FIFO) *)
-Definition reg_taken_at (init : obs) (st : list istep) (h : N) : option N :=
+(* position of h's registration in the queue history (cbch is FIFO) *)
+Definition reg_position (init : obs) (st : list istep) (h : N) : option nat :=
   match find (fun to => match snd to with OpRegister h' _ => h' =? h | _ => false end) (threads st) with
   | Some (tid, _) =>
-      match index_of (fun e => match snd e with Some t => t =? tid | None => false end) (enq_steps init st) 0 with
-      | Some k => nth_error (take_steps init st) k
-      | None => None
-      end
+      index_of (fun e => match snd (fst e) with Some t => t =? tid | None => false end) (enq_steps init st) 0
   | None => None
   end.
 
-Definition last_new_before (st : list istep) (j : N) : N :=
-  fold_left (fun acc ie => match snd ie with
-                           | OCall (OINew _ n _) => if fst ie <? j then n else acc
-                           | _ => acc end) (events st) 0.
+(* the step at which the registration of h was taken by the callback goroutine *)
+Definition reg_taken_at (init : obs) (st : list istep) (h : N) : option N :=
+  match reg_position init st h with
+  | Some k => nth_error (take_steps init st) k
+  | None => None
+  end.
 
-Definition globals_shown (su : setup) : bool := negb (p_delay (su_p su) && p_suppress (su_p su)).
+(* the last serial announced to the callback goroutine before it takes the k-th queue entry *)
+Definition last_announced_before (init : obs) (st : list istep) (k : nat) : N :=
+  fold_left (fun acc e => match snd e with Some n => n | None => acc end) (firstn k (enq_steps init st)) 0.
 
-(* an immediate call exactly when the token is valid and below the last announced serial *)
+(* an immediate call exactly when the token is valid and below the last announced serial -
+   whether or not OnNewConfig is installed or suppressed *)
 Definition catchup_when_due (su : setup) (init : obs) (st : list istep) : bool :=
-  negb (globals_shown su) ||
   forallb (fun h =>
-    match token_of st h, reg_taken_at init st h with
-    | Some tok, Some j =>
-        let L := last_new_before st j in
+    match token_of st h, reg_position init st h, reg_taken_at init st h with
+    | Some tok, Some k, Some j =>
+        let L := last_announced_before init st k in
         let at_j := filter (fun c => fst (fst c) =? j) (user_calls st h) in
         match tok with
         | Some t =>
@@ -165,7 +170,47 @@ Definition catchup_when_due (su : setup) (init : obs) (st : list istep) : bool :
             else match at_j with [] => true | _ => false end
         | None => match at_j with [] => true | _ => false end
         end
-    | _, _ => true
+    | _, _, _ => true
+    end) (handles st).
+
+(* the same from the outside only: a version is settled once the monitor is back at its select after
+   storing it without an overflow drop in between; a registration queued after that with a valid
+   older token must get an immediate call carrying at least that version *)
+Fixpoint settled_from (prev : obs) (pending : option N) (st : list istep) : list (N * N) :=
+  match st with
+  | [] => []
+  | x :: r =>
+      let pend :=
+        match i_lab x with
+        | LMonAct d =>
+            if o_mon prev =? 3 then Some (fst (o_val (i_obs x)))
+            else if d && (o_mon prev =? 5) then None else pending
+        | _ => pending
+        end in
+      if o_mon (i_obs x) =? 0
+      then match pend with
+           | Some n => (i_idx x, n) :: settled_from (i_obs x) None r
+           | None => settled_from (i_obs x) None r
+           end
+      else settled_from (i_obs x) pend r
+  end.
+
+Definition catchup_floor (init : obs) (st : list istep) : bool :=
+  forallb (fun h =>
+    match token_of st h, reg_position init st h, reg_taken_at init st h with
+    | Some (Some t), Some k, Some j =>
+        match nth_error (enq_steps init st) k with
+        | Some e =>
+            let i := fst (fst e) in
+            let L := fold_left (fun acc q => if fst q <? i then snd q else acc) (settled_from init None st) 0 in
+            negb (fst t <? L) ||
+            match filter (fun c => fst (fst c) =? j) (user_calls st h) with
+            | [(_, o, Some v)] => (o =? fst t) && (L <=? fst v)
+            | _ => false
+            end
+        | None => true
+        end
+    | _, _, _ => true
     end) (handles st).
 
 Definition unreg_started (st : list istep) (h : N) : N :=
@@ -174,22 +219,23 @@ Definition unreg_started (st : list istep) (h : N) : N :=
   | None => 2 + N.of_nat (length st)
   end.
 
-(* every version announced (OnNewConfig) after h's registration was taken, above its token and
-   before any unregister of h was started, is also handed to h *)
+(* every version put into the queue after h's registration, above its token and before any
+   unregister of h was started, is handed to h once the queue has been worked off *)
 Definition no_version_skipped (su : setup) (init : obs) (st : list istep) : bool :=
-  negb (globals_shown su) ||
+  let lo := last (map i_obs st) init in
+  negb ((o_cbq lo =? 0) && ((o_cb lo =? 3) || (o_cb lo =? 0))) ||
   forallb (fun h =>
-    match token_of st h, reg_taken_at init st h with
-    | Some tok, Some j =>
+    match token_of st h, reg_position init st h, reg_taken_at init st h with
+    | Some tok, Some k, Some _ =>
         let u := unreg_started st h in
-        forallb (fun ie =>
-          match snd ie with
-          | OCall (OINew _ n _) =>
-              negb ((j <? fst ie) && (fst ie <? u) && (tok_s tok <? n)) ||
+        forallb (fun e =>
+          match snd e with
+          | Some n =>
+              negb ((fst (fst e) <? u) && (tok_s tok <? n)) ||
               existsb (fun c => match snd c with Some v => fst v =? n | None => false end) (user_calls st h)
-          | _ => true
-          end) (events st)
-    | _, _ => true
+          | None => true
+          end) (skipn (S k) (enq_steps init st))
+    | _, _, _ => true
     end) (handles st).
 
 Definition spec_ok (c : ccase) : bool :=
@@ -200,7 +246,7 @@ Definition spec_ok (c : ccase) : bool :=
       (negb (res =? 0)) ||
       (never_stale st && predecessor_ok st && catchup_first st && none_after_unregister st
        && global_in_order st && serialized false st
-       && catchup_when_due su init st && no_version_skipped su init st)
+       && catchup_when_due su init st && catchup_floor init st && no_version_skipped su init st)
   end.
 
 Definition check (c : ccase) : N := verdict (spec_ok c) c.
